@@ -246,15 +246,28 @@ def coq_blk(b, hrid):
     if b[0] == "H":
         return "H %s %s" % (cnat(b[1]), cnat(b[2]))
     if b[0] == "T":
-        return "T %s" % cnat(b[1])
+        return "T (PText %s)" % cnat(b[1])
     return "HR %s" % cnat(hrid)
+
+
+def coq_cblk(b, hrid):
+    """a page line for Model/Blocks.v"""
+    if b[0] == "H":
+        return "BH %s %s" % (cnat(b[1]), cnat(b[2]))
+    if b[0] == "T":
+        return "BT %s" % cnat(b[1])
+    if b[0] == "LI":
+        return "BLI %s %s" % (coq_marker(b[1]), cnat(b[2]))
+    return "BHR %s" % cnat(hrid)
 
 
 def coq_items(forest, counter):
     parts = []
     for it in forest:
         if it[0] == "T":
-            parts.append("IT %s" % cnat(it[1]))
+            parts.append("IT (PText %s)" % cnat(it[1]))
+        elif it[0] == "LIST":
+            parts.append("IT (PList (%s))" % coq_lnode(it))
         elif it[0] == "HR":
             counter[0] += 1
             parts.append("IHR %s" % cnat(counter[0]))
@@ -298,6 +311,16 @@ def collect_lists(forest):
             if sub is None:
                 return None
             out += sub
+    return out
+
+
+def collect_all_lists(forest):
+    out = []
+    for it in forest:
+        if it[0] == "LIST":
+            out.append(it)
+        elif it[0] == "S":
+            out += collect_all_lists(it[3])
     return out
 
 
@@ -357,6 +380,29 @@ def run(run):
                 blks.append(coq_blk(b, hr[0]))
             coq_cases.append("(%s, %s)" % (clist(blks, lambda x: x, "blk"), coq_items(got, [0])))
             idx.append(i)
+    # the page machine (Model/Blocks.v: list machine on top of the section machine) against the whole real tree
+    pcases, pidx = [], []
+    for i, (d, t, o) in enumerate(zip(docs, texts, outs)):
+        if "raised" in o or not any(b[0] == "LI" for b in d):
+            continue
+        got = abstract(o["tree"].get("c", []))
+        if not all(well_shaped(x) for x in collect_all_lists(got)):
+            continue            # stray content inside the lists: reported by the oracle above
+        hr = [0]
+        blks = []
+        for b in d:
+            if b[0] == "HR":
+                hr[0] += 1
+            blks.append(coq_cblk(b, hr[0]))
+        pcases.append("(%s, %s)" % (clist(blks, lambda x: x, "cblk"), coq_items(got, [0])))
+        pidx.append(i)
+    bad, errs = lib.coq_eval_failing("c02p", ["Model.Lists", "Model.Nest", "Model.Blocks"], "list cblk * list item", pcases,
+                                     "fun '(d, t) => items_eqb 50 (Blocks.parse d) t", chunk=300)
+    for e in errs:
+        run.correspondence_break("model evaluation failed (pages)", None, error=e)
+    for b in bad:
+        run.correspondence_break("Model.Blocks.parse disagrees with the parser's structure of a page with lists", texts[pidx[b]])
+    run.extra["pages_with_lists_validated_against_impl"] = len(pcases)
     # list machine (Model/Lists.v) against the real list forest, for documents whose list lines form one block
     lcases, lidx = [], []
     for i, (d, t, o) in enumerate(zip(docs, texts, outs)):
